@@ -263,7 +263,9 @@ def restart_guard(B, bb):
             return True, "test-and-insert on a visited set dominates the call"
     pushes = []
     push_roots = {}
-    for pbb, pt in B.calls_to("Vec::<T, A>::push"):
+    marks = list(B.calls_to("Vec::<T, A>::push")) + [(b_, t_) for b_, t_ in B.calls() if (M.Body.callee_decl(t_) or "").endswith("::insert")
+                                                      and any(w in (M.Body.callee_decl(t_) or "") for w in ("BTreeSet", "HashSet")) and len(t_.get("args") or []) == 2]
+    for pbb, pt in marks:      # (`stack.push(key)` or, on a set, `visited.insert(key)` behind a separate `contains` test)
         fs = [tuple(o.fields()) for o in M.trace(B, pt["args"][0], ()) if o.kind == "arg"]
         if fs and B.dominates(pbb, bb) and pbb != bb:
             pushes.append((pbb, fs[0]))
@@ -273,7 +275,7 @@ def restart_guard(B, bb):
         return False, "no push onto a visited-stack dominates the call"
     for tbb, tt in B.calls():
         d = M.Body.callee_decl(tt) or ""
-        if not d.endswith(("Iterator::any", "[T]>::contains", "Vec::<T, A>::contains")):
+        if not (d.endswith(("Iterator::any", "[T]>::contains", "Vec::<T, A>::contains")) or (d.endswith("::contains") and any(w in d for w in ("BTreeSet", "HashSet")))):
             continue
         roots, via = M.slice_info(B, tt["args"][0])
         fields_ok = False
@@ -554,6 +556,8 @@ def rule_copy_fanout(ck, F):
             if x.get("k") == "For" and ".fields" in Hh.describe(x["iter"]):
                 copies = True
             if x.get("k") == "MethodCall" and x["name"] in ("extend", "extend_from_slice", "clone_from", "append") and any(".fields" in Hh.describe(a) for a in x["args"]):
+                copies = True
+            if x.get("k") == "MethodCall" and x["name"] in ("clone", "to_vec", "to_owned") and Hh.describe(x["recv"]).endswith(".fields"):
                 copies = True
         if looks and copies:
             copiers[f["path"]] = b
